@@ -100,18 +100,29 @@ inductive Op (κ : Type) where
 * `cleanupAlways` – /repo f683cd7: the callback loop sits in an inner `try`, the registries are released in its
                     `finally` (was: an exception leaving the loop skipped the clean-up)
 * `svcCtx`        – /repo 48c341a, a0b69d9: `@service` tasks are created with `ast_ctx=` and therefore get a
-                    `task2cb` entry (was: no entry, `task.add_done_callback` inside a service raised KeyError, #24) -/
+                    `task2cb` entry (was: no entry, `task.add_done_callback` inside a service raised KeyError, #24)
+* `oursAtCreate`  – /repo e8a0175: `create_task` itself does `our_tasks.add(task)` (and a done-callback discards it),
+                    so a task can be handed to the reaper before its first segment (was: only `run_coro` added it, and
+                    `task.cancel` of a created but not yet started task raised TypeError)
+* `reaperDetached` – /repo 32185a9: the reaper only calls `cmd[1].cancel()` (was: `…; await cmd[1]` – the one shared
+                    await: every later cancellation waited for the cancelled task's clean-up) -/
 structure Cfg where
   cbContinues : Bool
   snapshotIter : Bool
   cleanupAlways : Bool
   svcCtx : Bool
+  oursAtCreate : Bool
+  reaperDetached : Bool
 
 /-- the code as it is now -/
-def current : Cfg := { cbContinues := true, snapshotIter := true, cleanupAlways := true, svcCtx := true }
+def current : Cfg :=
+  { cbContinues := true, snapshotIter := true, cleanupAlways := true, svcCtx := true, oursAtCreate := true,
+    reaperDetached := true }
 
 /-- the code before the `fix:` commits (kept for the regression theorems) -/
-def preFix : Cfg := { cbContinues := false, snapshotIter := false, cleanupAlways := false, svcCtx := false }
+def preFix : Cfg :=
+  { cbContinues := false, snapshotIter := false, cleanupAlways := false, svcCtx := false, oursAtCreate := false,
+    reaperDetached := false }
 
 variable {κ : Type} [DecidableEq κ]
 
@@ -129,13 +140,14 @@ def ensureEntry (cb : Task → Option (List (Cb × Args))) (t : Task) : Task →
   | none => upd cb t (some [])
 
 /-- `Function.create_task(coro, ast_ctx)` (+ `task_done_callback_ctx(task, ctx)` right after it when `pre`) -/
-def createStep (s : St κ) (t : Task) (wc pre : Bool) : St κ :=
+def createStep (cfg : Cfg) (s : St κ) (t : Task) (wc pre : Bool) : St κ :=
   if s.phase t ≠ .none then s else
   { s with phase := upd s.phase t .created, withCtx := upd s.withCtx t wc,
-           cb := if pre then ensureEntry s.cb t else s.cb }
+           cb := if pre then ensureEntry s.cb t else s.cb,
+           u := if cfg.oursAtCreate then { s.u with ours := upd s.u.ours t true } else s.u }
 
 /-- the task an `@service` call creates (`pyscript_service_handler` / `ServiceDecorator`) -/
-def createService (cfg : Cfg) (s : St κ) (t : Task) : St κ := createStep s t cfg.svcCtx false
+def createService (cfg : Cfg) (s : St κ) (t : Task) : St κ := createStep cfg s t cfg.svcCtx false
 
 /-- first segment of `run_coro`: `our_tasks.add(task)`, `task_done_callback_ctx` when an ast_ctx was given -/
 def startStep (s : St κ) (t : Task) : St κ :=
@@ -261,15 +273,28 @@ def cleanupStep (cfg : Cfg) (s : St κ) (t : Task) : St κ :=
   if sizeChanged cfg s t then bail cfg s t .error else
   finish s t (resultOf (s.outcome t))
 
+/-- the head of the reaper queue is a task whose first segment has not run yet -/
+def headUnstarted (s : St κ) : Bool :=
+  match s.u.reaperQ with
+  | h :: _ => s.phase h == .created
+  | [] => false
+
+/-- one reaper iteration.  A cancel command for a task that was only just created is not delivered before that task's
+first segment: the task was put on the event loop's ready queue when it was created, i.e. before the `put_nowait` that
+wakes the reaper (asyncio runs ready callbacks first in, first out – runtime assumption, checked on every observed
+trace). -/
+def reapStep (cfg : Cfg) (s : St κ) : St κ :=
+  if headUnstarted s then s else { s with u := C13.reapStepCfg (!cfg.reaperDetached) s.u }
+
 def step (cfg : Cfg) (s : St κ) : Op κ → St κ
-  | .create t wc pre => createStep s t wc pre
+  | .create t wc pre => createStep cfg s t wc pre
   | .start t => startStep s t
   | .storeCtx t => storeCtxStep s t
   | .addCb a t c args => addCbStep s a t c args
   | .removeCb a t c => removeCbStep s a t c
   | .cancel a tg => cancelStep s a tg
   | .unique t k km => uniqueStep s t k km
-  | .reap => { s with u := C13.reapStep s.u }
+  | .reap => reapStep cfg s
   | .endBody t oc => endBodyStep s t oc
   | .cbBegin t => cbBeginStep cfg s t
   | .cbEnd t r => cbEndStep cfg s t r
